@@ -293,13 +293,15 @@ Proof.
   destruct st; cbn [exec guardm] in *.
   - (* create file *) split; [split; cbn; [constructor|now left]|intros H; contradiction].
   - destruct (_ && _); [apply Keep; reflexivity|exact Self].
+  - (* allocator statement *) destruct (_ && _); [apply Keep; reflexivity|exact Self].
   - (* INSERT INTO mailboxes *)
     destruct (_ && _); [|exact Self].
-    destruct (create_mailbox_row (d_st d) name t) as [[s1 i]|] eqn:Cr; cbn [option_map fst opt_st]; [|exact Self].
-    destruct (create_row_shape _ _ _ _ _ Cr) as (_ & Ei & Es).
-    unfold P2, HasI, names, ids in *. subst s1. cbn [d_st with_st mboxes]. repeat split.
+    destruct (insert_mailbox_row (d_st d) name v) as [s1|] eqn:Cr; cbn [opt_st]; [|exact Self].
+    unfold insert_mailbox_row in Cr. destruct name as [|c0 r0]; [discriminate|].
+    destruct (find_name (d_st d) (c0 :: r0)); [discriminate|]. inversion Cr as [Es]. clear Cr.
+    unfold P2, HasI, names, ids in *. cbn [d_st with_st mboxes]. repeat split.
     + rewrite map_app. cbn [map mb_id]. apply NoDup_app_one; auto.
-      intros C. subst i. apply fresh_id_gt in C. lia.
+      intros C. apply fresh_id_gt in C. lia.
     + right. rewrite map_app. apply in_or_app. now left.
     + intros H. rewrite map_app. apply in_or_app. now left.
   - (* default mailboxes *)
@@ -401,19 +403,25 @@ Proof.
 Qed.
 
 (** a run of mailbox INSERTs in an initialized store *)
+Definition is_create (st : mstep) : Prop := exists n t, st = MInsMailbox n t \/ st = MAllocV n t.
+
 Lemma guardsm_inserts l : forall d,
-  Forall (fun st => exists n t, st = MInsMailbox n t) l -> MB d -> HasI d -> guardsm_along d l.
+  Forall is_create l -> MB d -> HasI d -> guardsm_along d l.
 Proof.
   induction l as [|st r IH]; intros d F M H; simpl; [exact I|].
-  inversion F as [|? ? (n & t & ->) F']; subst. split; [exact H|].
-  destruct (exec_MB d (MInsMailbox n t) M H) as [M' H']. apply IH; auto.
+  inversion F as [|? ? (n & t & [->| ->]) F']; subst.
+  - split; [exact H|]. destruct (exec_MB d (MInsMailbox n t) M H) as [M' H']. apply IH; auto.
+  - split; [exact I|]. destruct (exec_MB d (MAllocV n t) M I) as [M' H']. apply IH; auto.
 Qed.
 
-Lemma parent_steps_inserts ps t : forall s, Forall (fun st => exists n t, st = MInsMailbox n t) (parent_steps s ps t).
+Lemma create_steps_inserts s n t : Forall is_create (create_steps s n t).
+Proof. unfold create_steps, is_create. repeat constructor; eauto. Qed.
+
+Lemma parent_steps_inserts ps t : forall s, Forall is_create (parent_steps s ps t).
 Proof.
-  induction ps as [|p r IH]; intros s; simpl; [constructor|].
+  induction ps as [|p r IH]; intros s; cbn [parent_steps]; [constructor|].
   destruct (find_name s p); [apply IH|]. destruct (create_mailbox_row s p t) as [[s' i]|]; [|apply IH].
-  constructor; [eauto|apply IH].
+  apply Forall_app. split; [apply create_steps_inserts|apply IH].
 Qed.
 
 Lemma after_parents_incl ps t : forall s, incl (mboxes s) (mboxes (after_parents s ps t)).
@@ -472,7 +480,7 @@ Proof.
     + cbn [app]. apply guardsm_plain. rewrite !forallb_app, msg_steps_plainm, add_steps_plainm.
       destruct (add_ok _ _); reflexivity.
     + destruct (create_mailbox_row (d_st d) f t) as [[s' id]|]; [|exact I].
-      cbn [app guardsm_along guardm]. split; [exact R|].
+      apply guardsm_app. split; [apply guardsm_inserts; auto; apply create_steps_inserts|].
       apply guardsm_plain. rewrite !forallb_app, msg_steps_plainm, add_steps_plainm.
       destruct (add_ok _ _); reflexivity.
   - destruct (ready d); [|exact I]. unfold append_steps.
@@ -487,9 +495,10 @@ Proof.
     + apply guardsm_plain. apply forallb_forall. intros x H. apply in_map_iff in H. destruct H as (i & <- & _). reflexivity.
     + (* create *)
       destruct (trim_suffix n [SLASH]) as [|c r]; [exact I|]. destruct (str_eqb _ _); [exact I|].
+      destruct (is_role_ns _); [exact I|].
       destruct (find_name s _); [exact I|]. apply guardsm_inserts; auto.
       apply Forall_app. split; [apply parent_steps_inserts|].
-      destruct (create_mailbox_row _ _ _); repeat constructor. eauto.
+      destruct (create_mailbox_row _ _ _); [apply create_steps_inserts|constructor].
     + (* delete *)
       destruct n as [|c r]; [exact I|]. destruct (str_eqb (to_upper (c :: r)) INBOX) eqn:U; [exact I|].
       destruct (find_name s (c :: r)) as [m|] eqn:Fn; [|exact I]. destruct (children s _); [|exact I].
@@ -499,6 +508,7 @@ Proof.
       subst m'. rewrite En. now apply upper_not_inbox.
     + (* rename *)
       destruct a as [|ca ra]; [exact I|]. destruct b as [|cb rb]; [exact I|].
+      destruct (is_role_ns (cb :: rb)); [exact I|].
       destruct (str_eqb (to_upper (cb :: rb)) INBOX); [exact I|].
       destruct (str_eqb (to_upper (ca :: ra)) INBOX) eqn:U.
       * destruct (find_name s (cb :: rb)); [exact I|]. destruct (find_name s INBOX); [|exact I].
@@ -506,8 +516,9 @@ Proof.
           by (apply guardsm_inserts; auto; apply parent_steps_inserts).
         apply guardsm_app. split; [exact Gp|].
         destruct (create_mailbox_row _ _ _) as [[? ?]|]; [|exact I].
-        split; [|split; exact I]. cbn [guardm].
-        destruct (run_MB _ d M Gp) as [_ H]. exact (H R).
+        destruct (run_MB _ d M Gp) as [Mp H].
+        apply guardsm_app. split; [apply guardsm_inserts; auto; apply create_steps_inserts|].
+        split; exact I.
       * destruct (find_name s (ca :: ra)) as [m|] eqn:Fn; [|exact I]. destruct (find_name s (cb :: rb)); [exact I|].
         split; [|exact I]. cbn [guardm]. split; [exact R|]. split.
         -- apply Forall_forall. intros p Hp. unfold parents_of in Hp. apply filter_In in Hp. destruct Hp as [_ Hp].
